@@ -236,5 +236,12 @@ func (t *Table) BuildSpec() (*common.Spec, error) {
 		}
 		f.SetUint(val)
 	}
+	// deneb requires MAX_BLOBS_PER_BLOCK <= MAX_BLOB_COMMITMENTS_PER_BLOCK: keep custom presets consistent
+	if spec.MAX_BLOBS_PER_BLOCK > spec.MAX_BLOB_COMMITMENTS_PER_BLOCK {
+		spec.MAX_BLOBS_PER_BLOCK = spec.MAX_BLOB_COMMITMENTS_PER_BLOCK
+	}
+	if spec.MAX_BLOBS_PER_BLOCK_ELECTRA > spec.MAX_BLOB_COMMITMENTS_PER_BLOCK {
+		spec.MAX_BLOBS_PER_BLOCK_ELECTRA = spec.MAX_BLOB_COMMITMENTS_PER_BLOCK
+	}
 	return spec, nil
 }
